@@ -1,6 +1,7 @@
 package props
 
 import (
+	"bytes"
 	"context"
 	"fmt"
 	"google.golang.org/protobuf/types/known/wrapperspb"
@@ -129,6 +130,10 @@ func c11(tier string) []*explore.Scenario {
 			out = append(out, c11One(abandon{"handler-returns", n, 1, false, false, false}, 64, 2, 1))
 			out = append(out, c11One(abandon{"caller-cancels", n, 0, false, false, false}, 64, 2, 1))
 		}
+	}
+	out = append(out, c11TwoAbandoned(0, 3, 1), c11TwoAbandoned(1, 3, 1), c11TwoAbandoned(64, 3, 1), c11TwoAbandonedG(0, 3, 1, true), c11TwoAbandonedG(1, 4, 1, true))
+	if tier == "thorough" {
+		out = append(out, explore.Sharded(c11TwoAbandoned(0, 3, 2), 8)...)
 	}
 	out = append(out, opInWriteAll("C11", 1)...)
 	// finer granularity (a scheduling point after every Unlock as well) on the small core scenarios
@@ -391,6 +396,95 @@ func failedCallAbandoned(prop, what string, bound int) *explore.Scenario {
 				vsched.Fail(fam+"|deadline-rpc-hang", "after %s: a later unary call with a 1s deadline never returned", what)
 			}
 			finishDirect(d, w, false)
+		},
+	}
+}
+
+// c11TwoAbandoned: two kinds of abandonment at once on one connection - stream "hr" whose handler returns
+// after one message while its caller goes on sending (the server answers the late messages with resets), and
+// stream "cc" whose caller cancels with responses unread (late responses reach a client that no longer knows
+// the stream). Whatever each side does with envelopes for streams it no longer knows, the connection stays
+// usable: the first caller gets its result and later calls complete.
+func c11TwoAbandoned(capn, n, bound int) *explore.Scenario {
+	return c11TwoAbandonedG(capn, n, bound, false)
+}
+
+// gated: the transport is slow taking the last response of the cancelled stream from the server (the server's
+// writer sits in that Write until everything else has come to rest; then the transport takes it)
+func c11TwoAbandonedG(capn, n, bound int, gated bool) *explore.Scenario {
+	fam := "C11/two-abandoned"
+	name := fmt.Sprintf("C11/two-abandoned/cap=%d/n=%d/d=%d", capn, n, bound)
+	if gated {
+		name += "/server-writer-held"
+	}
+	return &explore.Scenario{
+		Name: name, Family: fam, Prop: "C11", Bound: bound, Horizon: time.Hour,
+		Run: func() {
+			w := env.NewWorld()
+			d := env.NewDirect(w, env.DirectOpts{Pipe: env.PipeOpts{Cap: capn}})
+			if gated {
+				last := []byte(fmt.Sprintf("b%d", n-1))
+				d.Pipe.B.HoldIf = func(k int, rpc *env.Rpc) bool {
+					return rpc.GetBody() != nil && bytes.Contains(rpc.GetBody().GetData(), last)
+				}
+			}
+			vsched.Settle()
+			vsched.Explore(true)
+			hr, cc := w.Rec("hr", "Bidi"), w.Rec("cc", "Bidi")
+			w.Handlers["hr"] = env.HReturnAfter(1, nil)
+			w.Handlers["cc"] = func(r *env.Rec, ss grpc.ServerStream) error {
+				for i := 0; i < n; i++ {
+					if err := ss.SendMsg(env.S(fmt.Sprintf("b%d", i))); err != nil {
+						return err
+					}
+					r.HSent = append(r.HSent, fmt.Sprintf("b%d", i))
+				}
+				<-ss.Context().Done()
+				return status.FromContextError(ss.Context().Err()).Err()
+			}
+			vsched.GoNamed("caller-cc", func() {
+				ctx, cancel := context.WithCancel(context.Background())
+				if cs := w.Open(d.CC, ctx, cc); cs != nil {
+					env.CRecvOne(cc, cs)
+				}
+				cancel()
+				cc.CDone = true // walks away
+			})
+			vsched.GoNamed("caller-hr", func() {
+				if cs := w.Open(d.CC, context.Background(), hr); cs != nil {
+					env.PSendAllThenRecv(n)(hr, cs)
+				}
+				hr.CDone = true
+			})
+			vsched.Quiesce()
+			if gated {
+				d.Pipe.B.HoldIf = nil // (from here on the transport is prompt again, whether or not that Write had begun)
+				d.Pipe.B.ReleaseHeld(false)
+				vsched.Quiesce()
+			}
+			p1 := w.Rec("p1", "Unary")
+			vsched.GoNamed("probe-p1", func() { w.CallUnary(d.CC, context.Background(), p1, "x") })
+			vsched.Quiesce()
+			p2 := w.Rec("p2", "Unary")
+			vsched.GoNamed("probe-p2", func() {
+				ctx, cancel := context.WithTimeout(context.Background(), time.Second)
+				defer cancel()
+				w.CallUnary(d.CC, ctx, p2, "x")
+			})
+			vsched.QuiesceTime()
+			vsched.Obs("%s | %s | p1 done=%v p2 done=%v", hr.Summary(), cc.Summary(), p1.CDone, p2.CDone)
+			if !hr.CDone {
+				vsched.Fail(fam+"|own-caller-hang", "the caller of the stream whose handler returned early never got its result: %s; threads: %s", hr.Summary(), threadList())
+			}
+			if !p1.CDone {
+				vsched.Fail(fam+"|rpc-hang", "a later unary call never returned; threads: %s", threadList())
+			} else {
+				checkUnary(p1, "x", fam)
+			}
+			if !p2.CDone {
+				vsched.Fail(fam+"|deadline-rpc-hang", "a later unary call with a 1s deadline never returned")
+			}
+			finishDirect(d, w, true)
 		},
 	}
 }
